@@ -103,6 +103,43 @@ pub fn cells(tier: Tier) -> Vec<CellPlan> {
     ];
     c.rounds = if q { 3 } else { 4 };
     v.push(plan(c, 1, 2.0));
+    // Disconnect right after the client's messages were handed to the server.
+    let mut c = base("late-disconnect", 2);
+    c.alphabet = vec![
+        EvOp::Nop,
+        EvOp::EmitC(0, CK::C1, None),
+        EvOp::EmitC(0, CK::CT, None),
+        EvOp::EmitC(1, CK::C1, None),
+        EvOp::LateDisconnect(0),
+        EvOp::Connect(0),
+        EvOp::World(Op::Mut(0, TA)),
+    ];
+    c.rounds = if q { 3 } else { 4 };
+    v.push(plan(c, 1, 2.0));
+
+    // Relationship graph changed while the server is stopped.
+    let mut c = base("graph-restart", 1);
+    c.cfg.with_child = true;
+    c.cfg.sync_rel = true;
+    c.init = vec![Op::Spawn(0, 1 << TA), Op::Spawn(1, 1 << TA), Op::SetParent(1, 0)];
+    c.alphabet = vec![
+        EvOp::Nop,
+        EvOp::StopServer,
+        EvOp::StartServer,
+        EvOp::Connect(0),
+        EvOp::World(Op::ClearParent(1)),
+        EvOp::World(Op::SetParent(1, 0)),
+        EvOp::World(Op::Mut(1, TA)),
+    ];
+    c.tick_choice = false;
+    c.env.hold_updates = 0;
+    c.env.hold_events = false;
+    c.env.hold_client_events = false;
+    c.env.hold_mutations = false;
+    c.env.hold_acks = false;
+    c.rounds = if q { 5 } else { 6 };
+    v.push(plan(c, 0, 2.0));
+
     // Update channel two rounds behind by default: events are queued on the client at the moment
     // of the disconnect / stop without spending deviations.
     for (name, stop) in [("lag2-reconnect", false), ("lag2-restart", true)] {
